@@ -469,11 +469,11 @@ def _cond(run, P):
     run.ob("C05.cond", f, ctor[0], ok,
            construct="else arm is empty",
            why="nothing runs when the guard is false")
-    test = [n for n in f.node.body if isinstance(n, ast.If)]
-    from .util import else_part
-    ok = bool(test) and norm(test[0].test) == "statement.condition is not True" \
-        and any("statement_to_ast(statement)" in ast.unparse(s_)
-                and isinstance(s_, ast.Return) for s_ in else_part(f.node, test[0]))
+    from .util import split_by
+    t_, wt_, wf_ = split_by(f.node, lambda t: t == "statement.condition is not True")
+    test = [n for n in ast.walk(f.node) if isinstance(n, ast.If)]
+    ok = t_ is not None and any("statement_to_ast(statement)" in ast.unparse(s_)
+                                and isinstance(s_, ast.Return) for s_ in wf_)
     run.ob("C05.cond", f, test[0] if test else f.node, ok,
            construct="unguarded statements are wrapped directly",
            why="condition True means unconditional")
@@ -483,20 +483,20 @@ def _walker(run, P):
     f = P.func("dagrt.codegen.codegen_base.StructuredCodeGenerator.lower_node")
     from .util import core
     uses_self = lambda s_: any(isinstance(x, ast.Name) and x.id == "self" for x in ast.walk(s_))
+    from .util import path_conditions
     branches = {}
-    n = f.node.body[-1] if f.node.body else None
-    node = None
-    for s in f.node.body:
-        if isinstance(s, ast.If):
-            node = s
-    while isinstance(node, ast.If):
-        t = node.test
-        if isinstance(t, ast.Call) and dotted(t.func) == "isinstance":
-            branches[dotted(t.args[1])] = node.body
-        nxt = core(node.orelse, lambda s_: isinstance(s_, ast.If)) \
-            if any(isinstance(s_, ast.If) for s_ in node.orelse) else node.orelse
-        node = nxt[0] if len(nxt) == 1 and isinstance(nxt[0], ast.If) else None
-        last_else = nxt
+    param = f.params[1]
+    cands = [s_ for s_ in ast.walk(f.node) if isinstance(s_, (ast.Expr, ast.For, ast.Assign, ast.Raise))]
+    placed = []
+    for s_ in sorted(cands, key=lambda x: (x.lineno, x.col_offset)):
+        if any(any(y is s_ for y in ast.walk(p_)) for p_ in placed if p_ is not s_):
+            continue            # nested in a statement already placed
+        pc = path_conditions(f.node, s_)
+        pos = [t for t, v in pc if v and t.startswith(f"isinstance({param}, ")]
+        if len(pos) == 1:
+            cls_ = pos[0][len(f"isinstance({param}, "):-1]
+            branches.setdefault(cls_, []).append(s_)
+            placed.append(s_)
     expected = {
         "StatementWrapper": ["self.lower_inst(node.statement)"],
         "IfThen": ["self.emit_if_begin(node.condition)", "self.lower_node(node.then)",
